@@ -114,7 +114,7 @@ Proof.
     + (* TStart *) inversion H; subst. qq_plain s G S Hpc.
     + (* TSize *) inversion H; subst. qq_plain s G S Hpc.
     + (* TPermit *) inversion H; subst. qq_ssem s G S Hpc.
-    + (* DStart *) inversion H; subst. qq_plain s G S Hpc.
+    + (* DStart *) destruct (closed s); inversion H; subst; cbn [emit_destroyed]; qq_plain s G S Hpc.
     + (* DAvail *) inversion H; subst. qq_plain s G S Hpc.
     + (* DPermit *) inversion H; subst. qq_sem s G S Hpc.
     + (* DCheck *) destruct (closed s); inversion H; subst; qq_plain s G S Hpc.
